@@ -11,25 +11,14 @@ TRUSTED_BASE = [
 
 NOT_YET = {}
 
-PROPS = {
-    "C04": {
-        "modules": ["Mcp.Props.C04"],
-        "components": ["session"],
-        "technique": "Lean 4 theorems (table invariant by induction over histories, refinement of the live set to 'issued minus deleted', per-step refusal lemmas, hex injectivity) over a state-machine model of handlePost/handleGet/handleDelete; id-generator facts regenerated from source; differential run of enumerated and random HTTP histories against the model",
-        "level_text": "Proof: for every finite history over {initialize, request, notification, response-post, GET, stream-close, DELETE} x {no id, live, deleted, never-issued id} in stateful / stateless / session-disabled configurations the model's session table satisfies: ids issued only by initialize-without-id, fresh, bound until deleted, 400 for a missing id, 404 (and no state change) for unknown ids, DELETE ends session and stream, stateless never issues/needs an id and answers independently of history, and the reported live set equals issued-minus-deleted (refinement theorem). The model is tied to the code by running the same histories against the real handler (httptest) and diffing status, id header, closed streams and GetActiveSessions after every step, and by regenerated facts about generateSessionID (16 bytes, crypto/rand, hex).",
-        "level_note": "Clock-free: the 1 h expiry sweep is outside the model. That two 128-bit draws differ is a cryptographic assumption. Trusts the Lean kernel, the extractor, the harness.",
-        "assumptions": ["time-based session expiry is not modelled (histories run far below one hour)", "uniqueness of random ids is a cryptographic assumption; proved: injective visible-ASCII rendering of >=128 bits from crypto/rand"],
-    },
-    "C17": {
-        "modules": ["Mcp.Props.C17"],
-        "components": ["retry"],
-        "technique": "Lean 4 theorems (induction on the attempt loop, clamp algebra, kernel-evaluated status table) over a model of internal/retry; limits regenerated from source; differential run of Validate/IsRetryableError/Execute against the model",
-        "level_text": "Proof: attempts <= MaxRetries+1, retry only after a transient failure, stop at first success, k-th wait formula with cap, cancellation, clamp range and idempotence are Lean theorems for every configuration, script and cancellation instant; the 4xx classification is a complete kernel-evaluated table over the transports' real error texts. The model is tied to the code by regenerated constants and by running Validate, IsRetryableError and Execute on a boundary grid / outcome scripts and diffing with the model.",
-        "level_note": "Trusts the Lean kernel, the extractor and the differential harness; float64 arithmetic modelled over rationals (dyadic grid), ToLower ASCII-only, waits observed on the real clock (lower bound exact).",
-        "assumptions": [
-            "float64 arithmetic of the wait computation is modelled over exact rationals with an explicit overflow/NaN case; the differential grid uses dyadic factors for which both agree exactly",
-            "strings.ToLower is modelled on ASCII only",
-            "waits are observed on the real clock: lower bound exact (a timer never fires early), upper bound within measured scheduler jitter",
-        ],
-    },
-}
+# One JSON file per property in checklib/props.d/<id>.json:
+#   modules      Lean modules that hold the property theorems (Mcp.Props.<id>[...])
+#   namespace    (optional) Lean namespace of the theorems, default Mcp.Props.<id>
+#   components   harness components to run and diff against the Lean driver
+#   technique / level_text / level_note / assumptions   texts for MANIFEST.json and the evidence
+import os, json
+PROPS = {}
+_d = os.path.join(os.path.dirname(os.path.abspath(__file__)), "props.d")
+for _f in sorted(os.listdir(_d)):
+    if _f.endswith(".json"):
+        PROPS[_f[:-5]] = json.load(open(os.path.join(_d, _f)))
